@@ -701,11 +701,17 @@ func parseSettingsFrame(fh FrameHeader, p []byte) (Frame, error) {
 		return nil, ConnectionError{ErrCodeFrameSize, "SETTINGS with wrong payload size"}
 	}
 	f := &SettingsFrame{FrameHeader: fh, p: p}
-	if v, ok := f.Value(SettingInitialWindowSize); ok && v > (1<<31)-1 {
-		// Values above the maximum flow control window size of 2^31 - 1 MUST
-		// be treated as a connection error (Section 5.4.1) of type
-		// FLOW_CONTROL_ERROR.
-		return nil, ConnectionError{ErrCodeFlowControl, "SETTINGS with illegal InitialWindowSize"}
+	// Values above the maximum flow control window size of 2^31 - 1 MUST
+	// be treated as a connection error (Section 5.4.1) of type
+	// FLOW_CONTROL_ERROR. A frame may carry the setting more than once
+	// (the last occurrence takes effect), so every occurrence is checked.
+	if err := f.ForeachSetting(func(s Setting) error {
+		if s.ID == SettingInitialWindowSize && s.Val > (1<<31)-1 {
+			return ConnectionError{ErrCodeFlowControl, "SETTINGS with illegal InitialWindowSize"}
+		}
+		return nil
+	}); err != nil {
+		return nil, err
 	}
 	return f, nil
 }
